@@ -592,7 +592,7 @@ fn apply_timers(t: &mut Timers, now: u64, out: &Vec<Output>) -> Summary {
     s
 }
 
-//@ id=C08 tier=quick cap=1500 mem=24
+//@ id=C08 tier=quick cap=1500 mem=40
 //@ fn: fsm::Connection::on_connected, on_open, on_keepalive, on_update, on_update_sent, on_keepalive_timer_expired, on_hold_timer_expired
 //@ bound: timed run of 5 events from a fresh connection: connect, OPEN (hold times symbolic in {0} U [3,65535] on both sides), KEEPALIVE, then 2 symbolic events out of {KEEPALIVE rx, UPDATE rx, ROUTE-REFRESH rx, UPDATE tx, keepalive-timer, time passes} with symbolic non-decreasing clock; unwind 8
 //@ desc: with the driver's timer model: the hold deadline always equals (time of last KEEPALIVE/UPDATE received) + negotiated, is moved by nothing else, and does not exist when the negotiated hold time is zero (the session then never dies of hold-timer expiry)
